@@ -556,7 +556,12 @@ def execute(kind, ops, loop):
                         set_key(objs[op[1]], op[2], op[3])
                     res = "ok"
                 elif kind_op == "save":
-                    loop.run_until_complete(storage.save())
+                    try:
+                        loop.run_until_complete(storage.save())
+                    except Exception as e:
+                        oracle.problem("roundtrip:save-raises", type(e).__name__ + ": " + str(e)[:120], "save() stores the settings",
+                                       "save() raises for settings that were stored in the storage")
+                        raise
                     oracle.mark(storage)
                     res = "ok"
                     if kind == "file":
@@ -841,9 +846,83 @@ def run_histories(ctx, cases):
             ctx.fail(sig, {"kind": kind, "ops": ops[:idx + 1]}, observed, required, what)
 
 
+# --------------------------------------------------------------------------- the same histories in another process locale
+
+CHILD = r"""
+import sys, json, asyncio, locale
+sys.path[:0] = [%r, %r]
+from harness import c14
+kind, ops = json.loads(sys.stdin.read())
+loop = asyncio.new_event_loop()
+obs, problems, applies, final = c14.execute(kind, ops, loop)
+loop.run_until_complete(loop.shutdown_default_executor()); loop.close()
+print(json.dumps({"enc": locale.getpreferredencoding(False), "problems": problems, "final": final,
+                  "obs": [[o["res"], o["changed"], o["handles"], o["content"], o["reloaded"]] for o in obs]}))
+"""
+C_ENV = {"LC_ALL": "C", "LANG": "C", "PYTHONUTF8": "0", "PYTHONCOERCECLOCALE": "0", "PYTHONIOENCODING": "ascii:backslashreplace"}
+
+
+def execute_child(kind, ops):
+    """execute() in a child interpreter whose locale encoding is not UTF-8 (LC_ALL=C, UTF-8 mode and
+    locale coercion off).  Returns the child's result dict or {"error": ...}."""
+    import subprocess
+    import sys
+
+    from harness.core import REPO, VERIF
+
+    env = dict({k: v for k, v in os.environ.items() if not k.startswith("LC_") and k not in ("LANG", "PYTHONUTF8")}, **C_ENV)
+    try:
+        p = subprocess.run([sys.executable, "-c", CHILD % (REPO, VERIF)], input=json.dumps([kind, ops]), env=env,
+                           capture_output=True, text=True, timeout=120)
+        return json.loads(p.stdout.strip().split("\n")[-1])
+    except Exception as e:
+        return {"error": "%s: %s" % (type(e).__name__, str(e)[:200])}
+
+
+SUR = "a\ud800b"          # a lone surrogate: representable in a Python str, round-trips through the pinned code
+
+
+def locale_histories():
+    h = fixed_histories()
+    return [("file", h[2]),
+            ("file", [["update", [["AirPlay", A0, UNI, "p\u00e4ss"], ["Companion", B1, "\u4e2d\u6587", None]]], ["mutate", 0, "info.name", "Wohnzimmer \u00fc\U0001F4FA"],
+                      ["save"], ["load"], ["get", [["Companion", B1, None, None]]], ["mutate", 1, "protocols.raop.password", "\u00e9"], ["save"]]),
+            ("file", [["update", [["MRP", A1, SUR, None]]], ["mutate", 0, "info.name", SUR + UNI], ["save"], ["load"], ["save"]])]
+
+
+def run_locale(ctx, cases):
+    loop = asyncio.new_event_loop()
+    try:
+        for kind, ops in cases:
+            here = execute(kind, ops, loop)
+            child = execute_child(kind, ops)
+            case = {"kind": kind, "ops": ops, "env": "LC_ALL=C PYTHONUTF8=0 PYTHONCOERCECLOCALE=0"}
+            ctx.case(["locale", kind, ops], True)
+            ctx.note("locale-child:" + str(child.get("enc", child.get("error", "?")))[:40])
+            if "error" in child:
+                ctx.disagree(case, child["error"], "n/a", where="child process (locale)")
+                continue
+            for idx, sig, observed, required, what in child["problems"]:
+                ctx.fail(sig + ":non-utf8-locale", dict(case, ops=ops[:idx + 1]), observed, required,
+                         what + " (process locale encoding %s)" % child["enc"])
+            mine = json.loads(json.dumps([[o["res"], o["changed"], o["handles"], o["content"], o["reloaded"]] for o in here[0]]))
+            if not child["problems"] and (mine != child["obs"] or json.loads(json.dumps(here[3])) != child["final"]):
+                first = next((n for n, (a, b) in enumerate(zip(mine, child["obs"])) if a != b), len(mine))
+                ctx.fail("locale:behaviour-depends-on-process-locale", dict(case, ops=ops[:first + 1]),
+                         child["obs"][first] if first < len(child["obs"]) else child["final"], mine[first] if first < len(mine) else here[3],
+                         "the same history behaves differently in a process whose locale encoding is %s" % child["enc"])
+            for idx, sig, observed, required, what in here[1]:
+                ctx.fail(sig, {"kind": kind, "ops": ops[:idx + 1]}, observed, required, what)
+    finally:
+        loop.run_until_complete(loop.shutdown_default_executor())
+        loop.close()
+
+
 def run(ctx, only=None):
     if only is not None:
         return run_histories(ctx, only)
+    lrng = ctx.rng.fork("locale")
+    run_locale(ctx, locale_histories() + [("file", gen_history(lrng, "file", 8)) for _ in range(ctx.scale(2, 12))])
     cases = []
     for h in fixed_histories():
         cases.append(("file", h))
@@ -855,8 +934,23 @@ def run(ctx, only=None):
     run_histories(ctx, cases)
 
 
-def _fails(ctx, kind, ops, sig):
-    c2 = type(ctx)(ctx.prop, ctx.tier, ctx.seed, ctx.driver.driver_rel)
+def _fails(ctx, kind, ops, sig, env=None):
+    if env:
+        child = execute_child(kind, ops)
+        probs = child.get("problems", [])
+        if "error" in child:
+            return False
+        if (sig and sig.startswith("locale:")) or (not sig and not probs):
+            loop = asyncio.new_event_loop()
+            try:
+                here = execute(kind, ops, loop)
+            finally:
+                loop.run_until_complete(loop.shutdown_default_executor())
+                loop.close()
+            mine = json.loads(json.dumps([[o["res"], o["changed"], o["handles"], o["content"], o["reloaded"]] for o in here[0]]))
+            return mine != child["obs"] or json.loads(json.dumps(here[3])) != child["final"]
+        base = sig[:-len(":non-utf8-locale")] if sig and sig.endswith(":non-utf8-locale") else sig
+        return any(p[1] == base for p in probs) if base else bool(probs)
     loop = asyncio.new_event_loop()
     try:
         _obs, problems, _a, _f = execute(kind, ops, loop)
@@ -868,7 +962,7 @@ def _fails(ctx, kind, ops, sig):
 
 def replay(ctx, failure):
     case = failure["case"]
-    return _fails(ctx, case["kind"], case["ops"], None)
+    return _fails(ctx, case["kind"], case["ops"], None, case.get("env"))
 
 
 def shrink(ctx, failure):
@@ -878,7 +972,7 @@ def shrink(ctx, failure):
     while i < len(ops) - 1 and len(ops) > 1:
         cand = ops[:i] + ops[i + 1:]
         try:
-            if _fails(ctx, case["kind"], cand, sig):
+            if _fails(ctx, case["kind"], cand, sig, case.get("env")):
                 ops = cand
                 continue
         except Exception:
